@@ -51,7 +51,7 @@ func init() {
 
 	register(&Rule{
 		ID: "C11.R10", Props: []string{"C11", "C13"}, Min: 1,
-		Doc: "a registered function is called under a recover: every reflect.Value.Call / CallSlice in the module that can invoke a function from the registry sits in a function that defers a closure calling recover() — a panic in user code (an index into an empty list, a nil map write) is then an error of that function, named by the filter evaluator, instead of killing the caller",
+		Doc: "code that is not the engine's runs under a recover: every reflect.Value.Call / CallSlice in the module that can invoke a function from the registry, and every call of the LESS compiler's Parse / Render on the content of a <style> tag, sits in a function that defers a closure calling recover() — a panic in user code (an index into an empty list, a nil map write) is then an error of that function, named by the filter evaluator, instead of killing the caller",
 		Run: func(p *Prog, c *Ctx) {
 			n := 0
 			for _, fn := range p.Funcs {
@@ -60,7 +60,9 @@ func init() {
 				}
 				for _, site := range callsIn(fn) {
 					name := calleeName(site.Common())
-					if name != "(reflect.Value).Call" && name != "(reflect.Value).CallSlice" {
+					// … and so does a third-party compiler that is handed template content as it stands (LESS)
+					external := strings.Contains(name, "github.com/titpetric/lessgo/") && (strings.HasSuffix(name, ".Parse") || strings.HasSuffix(name, ".Render") || strings.HasSuffix(name, ".RenderWithBaseDir"))
+					if name != "(reflect.Value).Call" && name != "(reflect.Value).CallSlice" && !external {
 						continue
 					}
 					n++
@@ -195,7 +197,17 @@ func init() {
 					if cs, ok := in.(ssa.CallInstruction); ok {
 						if b, ok := cs.Common().Value.(*ssa.Builtin); ok && b.Name() == "delete" {
 							if f := loadedField(cs.Common().Args[0]); f != nil && fieldIs(f, "templateCache") {
-								deletes[site] = true
+								// the helper evicts whatever is there: the delete lies on every path through it
+								// (a compare-and-delete leaves the previous revision's entry in place)
+								uncond := true
+								for _, r := range returnsOf(callee) {
+									if !mustPassBefore(callee, r, map[ssa.Instruction]bool{in: true}) {
+										uncond = false
+									}
+								}
+								if uncond {
+									deletes[site] = true
+								}
 							}
 						}
 					}
@@ -978,6 +990,12 @@ func init() {
 						if bi, ok := u.Common().Value.(*ssa.Builtin); ok && bi.Name() == "len" {
 							continue
 						}
+						// a predicate over the value is part of the decision, not of the output
+						if res := u.Common().Signature().Results(); res.Len() == 1 {
+							if bt, ok := res.At(0).Type().Underlying().(*types.Basic); ok && bt.Kind() == types.Bool {
+								continue
+							}
+						}
 						if write == nil || instrIndex(u) < instrIndex(write) && u.Block() == write.Block() || u.Block().Dominates(write.Block()) && u.Block() != write.Block() {
 							write = u
 						}
@@ -987,17 +1005,47 @@ func init() {
 					continue
 				}
 				onNormalised := false
+				foreign := ""
 				for _, g := range controllingIfs(write) {
+					mentions := false
+					var others []string
 					for _, leaf := range condLeaves(g.If.Cond) {
 						if leaf == ssa.Value(cl) {
-							onNormalised = true
+							mentions = true
+							continue
 						}
 						if lc, ok := leaf.(*ssa.Call); ok {
 							if bi, ok := lc.Call.Value.(*ssa.Builtin); ok && bi.Name() == "len" && lc.Call.Args[0] == ssa.Value(cl) {
-								onNormalised = true
+								mentions = true
+								continue
+							}
+							// a call that is given the normalised value together with something else of the attribute
+							uses := false
+							for _, a := range lc.Call.Args {
+								if a == ssa.Value(cl) {
+									uses = true
+								}
+							}
+							if uses && len(lc.Call.Args) > 1 {
+								mentions = true
+								others = append(others, calleeName(&lc.Call))
+								continue
 							}
 						}
+						if _, isK := leaf.(*ssa.Const); !isK {
+							others = append(others, describeValue(leaf))
+						}
 					}
+					if mentions {
+						onNormalised = true
+						if len(others) > 0 {
+							foreign = strings.Join(others, ", ")
+						}
+					}
+				}
+				if onNormalised && foreign != "" {
+					c.fail(fmt.Sprintf("renderOpenTag: value#%d is written whenever the normalised value is non-empty", n), p.instrPos(write), "whether `=\"…\"` is written depends on more than the value being non-empty ("+foreign+"): a non-empty value that meets the extra condition (name=\"name\", value=\"Value\") is written as a bare attribute and read back as the empty string")
+					continue
 				}
 				c.check(onNormalised, fmt.Sprintf("renderOpenTag: value#%d is written when the normalised value is non-empty", n), p.instrPos(write), "the test and the write use the same string", "whether `=\"…\"` is written is decided on the raw attribute value while the normalised one is written: a value of only whitespace comes out as =\"\" now and as a bare attribute on the next pass — formatting is not idempotent")
 			}
@@ -1134,7 +1182,7 @@ func init() {
 
 func init() {
 	register(&Rule{
-		ID: "C17.R10", Props: []string{"C17", "C03", "C11", "C08"}, Min: 1,
+		ID: "C17.R10", Props: []string{"C17", "C03", "C11", "C08", "C09", "C10"}, Min: 1, // C09/C10: Copy() is built on EnvMap — a shared map is shared between requests
 		Doc: "the merged environment holds every binding, whatever its value: in Stack.EnvMap the copy of a scope's entries into the result is decided by the iteration alone — no condition on the value (nil, zero, type) stands before the store. A binding that is left out no longer shadows an outer one: v-if / v-show / :class (which read the environment) then see the outer value while {{ }} and bound attributes (which use Lookup) see the inner one, and the nil that hides inherited slot content from itself stops hiding it",
 		Run: func(p *Prog, c *Ctx) {
 			fn := p.MustFn("(*vuego.Stack).EnvMap")
@@ -1574,9 +1622,9 @@ func init() {
 				if sig.Params().Len() != 1 || !isString(sig.Params().At(0).Type()) || sig.Results().Len() != 2 {
 					continue
 				}
-				if _, isSlice := sig.Results().At(0).Type().Underlying().(*types.Slice); isSlice {
-					continue // ReadDir, Glob: unions over all layers (C18.R2/R3/R7)
-				}
+				// ReadDir, Glob: unions over all layers (C18.R2/R3/R7) — no early return there, but a layer
+				// is not skipped for lacking an optional interface either
+				_, union := sig.Results().At(0).Type().Underlying().(*types.Slice)
 				// the loop over the layers
 				var h *ssa.BasicBlock
 				eachInstr(fn, func(in ssa.Instruction) {
@@ -1615,7 +1663,9 @@ func init() {
 						stops = true
 					}
 				}
-				c.check(stops, shortName(fn)+": returns at the first layer that answers", p.pos(fn.Pos()), "a `return x, nil` inside the walk over the layers", "the walk over the layers has no successful return inside it: every layer that has the path overwrites the answer of the one before, so the answer comes from the lowest layer — content is served from the upper file but its metadata (mtime, size) from a shadowed one, and the template cache validates against the wrong file")
+				if !union {
+					c.check(stops, shortName(fn)+": returns at the first layer that answers", p.pos(fn.Pos()), "a `return x, nil` inside the walk over the layers", "the walk over the layers has no successful return inside it: every layer that has the path overwrites the answer of the one before, so the answer comes from the lowest layer — content is served from the upper file but its metadata (mtime, size) from a shadowed one, and the template cache validates against the wrong file")
+				}
 				// (a) no layer is skipped for lacking an optional interface
 				eachInstr(fn, func(in ssa.Instruction) {
 					ta, ok := in.(*ssa.TypeAssert)
@@ -1755,7 +1805,7 @@ func init() {
 
 func init() {
 	register(&Rule{
-		ID: "C17.R11", Props: []string{"C17", "C08", "C11"}, Min: 1,
+		ID: "C17.R11", Props: []string{"C17", "C08", "C11", "C02"}, Min: 1, // C02: an acyclic value met twice must print as fmt prints it
 		Doc: "the cycle guard of a data walk records the current path, not everything ever seen: wherever a recursive conversion of caller data marks a pointer in a `visiting` set that is threaded through the recursion (a map parameter), the same key is removed again when that level is left (a deferred or explicit delete after the insert). Without the removal, data that merely mentions one struct twice — root.Author == root.Editor — is taken for a cycle, and the second occurrence converts to an empty map: its fields render as nothing",
 		Run: func(p *Prog, c *Ctx) {
 			n := 0
@@ -1844,6 +1894,17 @@ func init() {
 					}
 				}
 				if len(evals) == 0 {
+					// one implementation for both: the position hands its condition to evalConditionExpr
+					delegates := false
+					for _, site := range callsIn(fn) {
+						if calleeName(site.Common()) == "(*vuego.Vue).evalConditionExpr" {
+							delegates = true
+						}
+					}
+					if delegates && name != "(*vuego.Vue).evalConditionExpr" {
+						c.ok(strings.TrimPrefix(name, "(*vuego.Vue).")+": falls back to the path resolver", p.pos(fn.Pos()), "evaluates through evalConditionExpr")
+						continue
+					}
 					undecided("%s does not call the expression evaluator", name)
 				}
 				ok := false
@@ -2464,6 +2525,19 @@ func init() {
 						if _, isConst := dyn.(*ssa.Const); isConst {
 							continue
 						}
+						// what recover() returned is the argument of a panic — a runtime error or a message of the
+						// code that panicked, not a value of the caller's data
+						recovered := false
+						for _, o := range p.origins(dyn, OriginOpts{}) {
+							if cl, ok := o.(*ssa.Call); ok {
+								if bi, ok := cl.Call.Value.(*ssa.Builtin); ok && bi.Name() == "recover" {
+									recovered = true
+								}
+							}
+						}
+						if recovered {
+							continue
+						}
 						n++
 						what := fmt.Sprintf("%s: %s of a data value#%d", shortName(fn), strings.TrimPrefix(calleeName(site.Common()), "fmt."), n)
 						// (a) a basic dynamic type is established on every path
@@ -2581,4 +2655,329 @@ func sameBoxed(a, b ssa.Value) bool {
 		}
 	}
 	return sameValue(strip(a), strip(b))
+}
+
+// typeOfBasic: v is reflect.TypeOf(<constant of a basic type>), directly or through a package variable that is
+// only ever assigned such a value.
+func (p *Prog) typeOfBasic(v ssa.Value) (string, bool) {
+	isCall := func(x ssa.Value) (string, bool) {
+		cl, ok := x.(*ssa.Call)
+		if !ok || calleeName(&cl.Call) != "reflect.TypeOf" || len(cl.Call.Args) != 1 {
+			return "", false
+		}
+		arg := cl.Call.Args[0]
+		if mi, ok := arg.(*ssa.MakeInterface); ok {
+			arg = mi.X
+		}
+		if _, ok := arg.(*ssa.Const); !ok {
+			return "", false
+		}
+		if b, ok := arg.Type().Underlying().(*types.Basic); ok && arg.Type() == types.Type(b) {
+			return b.Name(), true
+		}
+		return "", false
+	}
+	if n, ok := isCall(v); ok {
+		return n, true
+	}
+	ld, ok := v.(*ssa.UnOp)
+	if !ok || ld.Op != token.MUL {
+		return "", false
+	}
+	g, ok := ld.X.(*ssa.Global)
+	if !ok {
+		return "", false
+	}
+	name, found := "", false
+	for _, fn := range p.Funcs {
+		bad := false
+		eachInstr(fn, func(in ssa.Instruction) {
+			st, ok := in.(*ssa.Store)
+			if !ok || st.Addr != ssa.Value(g) {
+				return
+			}
+			if n, ok := isCall(st.Val); ok {
+				name, found = n, true
+			} else {
+				bad = true
+			}
+		})
+		if bad {
+			return "", false
+		}
+	}
+	if !found && g.Pkg != nil {
+		if init := g.Pkg.Func("init"); init != nil {
+			walkFuncTree(init, func(f *ssa.Function) {
+				eachInstr(f, func(in ssa.Instruction) {
+					if st, ok := in.(*ssa.Store); ok && st.Addr == ssa.Value(g) {
+						if n, ok := isCall(st.Val); ok {
+							name, found = n, true
+						}
+					}
+				})
+			})
+			for _, site := range callsIn(init) {
+				if callee := site.Common().StaticCallee(); callee != nil && strings.HasPrefix(callee.Name(), "init#") {
+					eachInstr(callee, func(in ssa.Instruction) {
+						if st, ok := in.(*ssa.Store); ok && st.Addr == ssa.Value(g) {
+							if n, ok := isCall(st.Val); ok {
+								name, found = n, true
+							}
+						}
+					})
+				}
+			}
+		}
+	}
+	return name, found
+}
+
+func init() {
+	register(&Rule{
+		ID: "C17.R12", Props: []string{"C17", "C08", "C03"}, Min: 1,
+		Doc: "the shape of data is decided by Kind, not by type identity: nowhere in the module is a reflect.Type compared (==, !=) with the type of a basic value (reflect.TypeOf(\"\"), reflect.TypeOf(0), …) — a named type (type Lang string; map[Lang]T, type Count int) has the same kind and a different identity, so such a comparison silently treats it as `something else`: a path into a map keyed by a named string type finds nothing, a named number is not a number. (Comparing with the type of a module struct or pointer, as the function caller does for *VueContext, is identity on purpose)",
+		Run: func(p *Prog, c *Ctx) {
+			n := 0
+			scanned := 0
+			for _, fn := range p.Funcs {
+				if p.Dropped[fn] || !inModule(fn) {
+					continue
+				}
+				eachInstr(fn, func(in ssa.Instruction) {
+					b, ok := in.(*ssa.BinOp)
+					if !ok || (b.Op != token.EQL && b.Op != token.NEQ) {
+						return
+					}
+					if pk, nm := namedType(b.X.Type()); pk != "reflect" || nm != "Type" {
+						return
+					}
+					scanned++
+					for _, side := range []ssa.Value{b.X, b.Y} {
+						if basic, ok := p.typeOfBasic(side); ok {
+							n++
+							c.fail(fmt.Sprintf("%s: type identity with %s#%d", shortName(fn), basic, n), p.instrPos(b), "a reflect.Type is compared with the type of a plain "+basic+": values of a named type of the same kind (type Lang string) fail the comparison although they are "+basic+"s for every purpose of the property — test Kind() instead")
+							return
+						}
+					}
+					n++
+					c.ok(fmt.Sprintf("%s: type comparison#%d", shortName(fn), n), p.instrPos(b), "identity with a non-basic type")
+				})
+			}
+			// the rule's expected violation count is zero: record what was scanned
+			c.ok("scan", "-", fmt.Sprintf("%d reflect.Type comparisons in %d functions", scanned, len(p.Funcs)))
+		},
+	})
+
+	register(&Rule{
+		ID: "C14.R12", Props: []string{"C14"}, Min: 1,
+		Doc: "classes are tokens: where the evaluator merges or builds a class attribute (the branch taken for the attribute name \"class\", and the class-string builders), no substring search (strings.Contains / Index / LastIndex / Count / HasPrefix / HasSuffix / EqualFold on a part) decides whether a class is present — `btn` is a substring of `btn-primary` and not one of its classes; bound classes are appended (or compared token by token)",
+		Run: func(p *Prog, c *Ctx) {
+			substr := map[string]bool{"strings.Contains": true, "strings.Index": true, "strings.LastIndex": true, "strings.Count": true, "strings.HasPrefix": true, "strings.HasSuffix": true, "strings.ContainsAny": true}
+			isClassEdge := func(cond ssa.Value, want bool) bool {
+				b := eqOnEdge(cond, want)
+				if b == nil {
+					return false
+				}
+				for _, o := range []ssa.Value{b.X, b.Y} {
+					if s, ok := constString(o); ok && s == "class" {
+						return true
+					}
+				}
+				return false
+			}
+			n := 0
+			for _, name := range []string{"(*vuego.Vue).evalAttributes", "(*vuego.Vue).evalObjectBinding", "(*vuego.Vue).buildClassString"} {
+				fns, _ := p.hostsOf(name)
+				for _, fn := range fns {
+					whole := strings.Contains(name, "buildClassString")
+					for _, site := range callsIn(fn) {
+						if !substr[calleeName(site.Common())] {
+							continue
+						}
+						if !whole && !(enteredOnlyUnder(site.Block(), isClassEdge) || everyPathCrosses(site.Block(), isClassEdge)) {
+							continue
+						}
+						// a test of the attribute's *name* (":class", "v-bind:") is not a test of its classes
+						nameTest := false
+						for _, a := range site.Common().Args[1:] {
+							if s, ok := constString(a); ok && (strings.HasPrefix(s, ":") || strings.HasPrefix(s, "v-") || s == "{" || s == "}" || s == "[" || s == "]") {
+								nameTest = true
+							}
+						}
+						if nameTest {
+							continue
+						}
+						n++
+						c.fail(fmt.Sprintf("%s: class membership by substring#%d", shortName(fn), n), p.instrPos(site), "whether a class is already present is decided with "+calleeName(site.Common())+" on the attribute text: a bound class that is a substring of another class (btn / btn-primary, active / inactive) is taken for present and left out")
+					}
+				}
+			}
+			c.ok("scan", "-", "class branches of evalAttributes / evalObjectBinding / buildClassString scanned for substring tests")
+		},
+	})
+
+	register(&Rule{
+		ID: "C04.R11", Props: []string{"C04", "C03"}, Min: 1,
+		Doc: "an instance is the looped element minus its v-for: the only attribute evalFor removes from the per-item copy it hands to evaluate is v-for. Everything else the element carries — v-if, a chain directive, v-once, bindings — is evaluated per item by the one element path; a copy stripped of v-else-if / v-else is rendered without its chain ever being consulted, one stripped of v-if ignores the condition",
+		Run: func(p *Prog, c *Ctx) {
+			fns, _ := p.hostsOf("(*vuego.Vue).evalFor")
+			n := 0
+			for _, root := range fns {
+				walkFuncTree(root, func(fn *ssa.Function) {
+					for _, site := range callsIn(fn) {
+						if calleeName(site.Common()) != "helpers.RemoveAttr" || len(site.Common().Args) < 2 {
+							continue
+						}
+						n++
+						k, ok := constString(site.Common().Args[1])
+						c.check(ok && k == "v-for", fmt.Sprintf("evalFor: the per-item copy loses only v-for#%d", n), p.instrPos(site), "RemoveAttr(copy, \"v-for\")", "the per-item copy is stripped of "+fmt.Sprintf("%q", k)+" as well: the directive is then never evaluated for the instances (a looping v-else-if / v-else member is rendered whatever its chain selected; a v-if on the looped element is ignored)")
+					}
+				})
+			}
+			// the copy may be stripped by other means (a filtered attribute list): nothing to judge then
+			c.ok("scan", "-", fmt.Sprintf("%d RemoveAttr calls in evalFor and its closures", n))
+		},
+	})
+}
+
+func init() {
+	register(&Rule{
+		ID: "C02.R11", Props: []string{"C02", "C19"}, Min: 3,
+		Doc: "a template is parsed as source, not as a page in a scripting browser: every call that parses template or formatter input with golang.org/x/net/html passes html.ParseOptionEnableScripting(false). With scripting on (the parser's default) the content of <noscript> is one text node, which the serialiser and the formatter escape: `<noscript><img src=…></noscript>` comes out as `&lt;img …&gt;` and is escaped once more by every formatter pass; with scripting off it is the markup it looks like, evaluated and written like any other element. (Parses of constants — the cached body context — and the diff helpers are not template input)",
+		Run: func(p *Prog, c *Ctx) {
+			n := 0
+			for _, fn := range p.Funcs {
+				if p.Dropped[fn] || !inModule(fn) {
+					continue
+				}
+				pk := funcPkg(fn)
+				if pk == nil || !(strings.HasSuffix(pk.Path(), "internal/parser") || pk.Path() == formatterPkg) {
+					continue
+				}
+				for _, site := range callsIn(fn) {
+					nm := calleeName(site.Common())
+					if !strings.HasPrefix(nm, "golang.org/x/net/html.Parse") || strings.Contains(nm, "ParseOption") {
+						continue
+					}
+					n++
+					off := false
+					if strings.HasSuffix(nm, "WithOptions") {
+						args := site.Common().Args
+						// the options: elements of the variadic slice, or the slice handed through
+						var opts []ssa.Value
+						if sl, ok := args[len(args)-1].(*ssa.Slice); ok {
+							if al, ok := sl.X.(*ssa.Alloc); ok && al.Referrers() != nil {
+								for _, r := range *al.Referrers() {
+									if ia, ok := r.(*ssa.IndexAddr); ok && ia.Referrers() != nil {
+										for _, u := range *ia.Referrers() {
+											if st, ok := u.(*ssa.Store); ok {
+												opts = append(opts, st.Val)
+											}
+										}
+									}
+								}
+							}
+						}
+						for _, o := range opts {
+							for _, org := range p.origins(o, OriginOpts{}) {
+								if cl, ok := org.(*ssa.Call); ok && calleeName(&cl.Call) == "golang.org/x/net/html.ParseOptionEnableScripting" {
+									if k, ok := cl.Call.Args[0].(*ssa.Const); ok && !constant.BoolVal(k.Value) {
+										off = true
+									}
+								}
+							}
+						}
+					}
+					c.check(off, fmt.Sprintf("%s: %s without scripting#%d", shortName(fn), nm[strings.LastIndex(nm, ".")+1:], n), p.instrPos(site), "ParseOptionEnableScripting(false)", "the input is parsed with scripting enabled (the default): everything inside <noscript> becomes one text node and is written escaped — markup a browser without scripting should see arrives as text, and the formatter escapes it again on every pass")
+				}
+			}
+		},
+	})
+
+	register(&Rule{
+		ID: "C19.R14", Props: []string{"C19"}, Min: 6,
+		Doc: "what the parser reads as raw text the formatter writes as raw text: for each element whose content the HTML parser hands over undecoded (script, style, xmp, iframe, noembed, noframes) the formatter's element switch reaches the verbatim writer (formatRawTextElement) and not the escaping text path — escaping undecoded text changes it, and changes it again on every pass",
+		Run: func(p *Prog, c *Ctx) {
+			fn := p.MustFn("(*formatter.Formatter).formatNode")
+			var raw []ssa.CallInstruction
+			for _, site := range callsIn(fn) {
+				if strings.HasSuffix(calleeName(site.Common()), ").formatRawTextElement") {
+					raw = append(raw, site)
+				}
+			}
+			if len(raw) == 0 {
+				undecided("formatNode does not call formatRawTextElement")
+			}
+			for _, tag := range []string{"script", "style", "xmp", "iframe", "noembed", "noframes"} {
+				reach := false
+				for _, site := range raw {
+					if reachableAssuming(site.Block(), func(cond ssa.Value) (bool, bool) {
+						// comparisons of a node's tag name with a constant, or membership in a constant set
+						if b, ok := cond.(*ssa.BinOp); ok && (b.Op == token.EQL || b.Op == token.NEQ) {
+							for _, pair := range [][2]ssa.Value{{b.X, b.Y}, {b.Y, b.X}} {
+								if s, ok := constString(pair[1]); ok {
+									if f := loadedField(pair[0]); f != nil && fieldIs(f, "Data") {
+										return (s == tag) == (b.Op == token.EQL), true
+									}
+								}
+							}
+						}
+						if x, set, member, ok := inSetOnEdge(cond, true); ok {
+							if f := loadedField(x); f != nil && fieldIs(f, "Data") {
+								in := false
+								for _, s := range set {
+									if s == tag {
+										in = true
+									}
+								}
+								return in == member, true
+							}
+						}
+						return false, false
+					}) {
+						reach = true
+					}
+				}
+				c.check(reach, "formatNode: <"+tag+"> is written verbatim", p.pos(fn.Pos()), "reaches formatRawTextElement", "the content of <"+tag+"> (raw text for the parser: entities are not decoded, tags are not recognised) goes through the escaping text path: `<"+tag+"><b>x</b></"+tag+">` becomes &lt;b&gt;… and &amp;lt;b&amp;gt;… on the next pass")
+			}
+		},
+	})
+
+	register(&Rule{
+		ID: "C18.R9", Props: []string{"C18"}, Min: 1,
+		Doc: "a path present in no layer reports not-exist, for listings too: OverlayFS.ReadDir returns a listing (nil error) only when some layer answered — or for the root of an overlay that has no layer at all, which is an empty filesystem. Any other path with no layer to ask is an error, not an empty directory",
+		Run: func(p *Prog, c *Ctx) {
+			fn := p.MustFn("(*vuego.OverlayFS).ReadDir")
+			n := 0
+			for _, r := range returnsOf(fn) {
+				if len(r.Results) != 2 || !isNilConst(r.Results[1]) {
+					continue
+				}
+				n++
+				// on every path to the success return: a layer answered (the `found` flag, set where a
+				// layer's listing came back without error) or the name was compared with "."
+				answered := func(cond ssa.Value, want bool) bool {
+					if ph, ok := cond.(*ssa.Phi); ok && want {
+						if bt, ok := ph.Type().Underlying().(*types.Basic); ok && bt.Kind() == types.Bool {
+							return true
+						}
+					}
+					if b := eqOnEdge(cond, want); b != nil {
+						for _, o := range []ssa.Value{b.X, b.Y} {
+							if s, ok := constString(o); ok && s == "." {
+								return true
+							}
+						}
+					}
+					return false
+				}
+				ok := enteredOnlyUnder(r.Block(), answered) || everyPathCrosses(r.Block(), answered)
+				c.check(ok, fmt.Sprintf("ReadDir: a listing only when a layer answered#%d", n), p.instrPos(r), "found, or the root of an empty overlay", "ReadDir returns a listing without an error although no layer was asked: NewOverlayFS(nil).ReadDir(\"no/such/dir\") is an empty directory while Open of the same path reports not-exist")
+			}
+			if n == 0 {
+				undecided("ReadDir has no success return")
+			}
+		},
+	})
 }
